@@ -149,7 +149,14 @@ def add_glue_as_needed(*, _sys_modules_len_cache: list[int] = [0]) -> None:
 def _install_pending_glue(_sys_modules_len_cache: list[int]) -> None:
     _verif_hook("glue:locked")
     module_names = tuple(sys.modules)
+    all_visited = True
     for module_name in module_names:
+        if _is_lazy_and_unloaded(sys.modules.get(module_name)):
+            # In sys.modules, but none of its code has run yet, so whether
+            # it brings its own glue remains to be seen (and our glue for
+            # it would make it load). Come back when it has been loaded.
+            all_visited = False
+            continue
         builtin_fn = builtin_glue_pending.pop(module_name, None)
         try:
             module = sys.modules[module_name]
@@ -177,7 +184,16 @@ def _install_pending_glue(_sys_modules_len_cache: list[int]) -> None:
             warn_glue_failed(kind, module_name, exc)
     # Only update the length cache if we visited every module (rather
     # than bailing out with an exception)
-    _sys_modules_len_cache[0] = len(module_names)
+    if all_visited:
+        _sys_modules_len_cache[0] = len(module_names)
+
+
+def _is_lazy_and_unloaded(module: object) -> bool:
+    # A module imported through importlib.util.LazyLoader has a class of
+    # its own until the first use of one of its attributes makes it load.
+    # (type(), not isinstance(): looking at its __class__ would be a use.)
+    cls = type(module)
+    return cls.__name__ == "_LazyModule" and cls.__module__ == "importlib.util"
 
 
 functools_singledispatch_wrapper = get_code(functools.singledispatch, "wrapper")
